@@ -33,6 +33,35 @@ pub(crate) mod u6 {
             }
         }
     }
+    /// Children of an object as the collector sees them: struct fields, array elements, the enum
+    /// payload, and -- for a channel -- the Values sitting in its queue (process_gray marks those
+    /// under the lock).  Only queues whose pointer values point into THIS thread's heap are in
+    /// scope; a queue shared with another thread (pointers into a foreign heap) is C09's problem.
+    pub fn nchildren(h: *mut ObjectHeader) -> usize {
+        unsafe {
+            match (*h).kind {
+                ObjectKind::Channel => (&*(h as *const ChannelObject)).data.lock().unwrap().len(),
+                _ => fields(h).len(),
+            }
+        }
+    }
+    pub fn child(h: *mut ObjectHeader, i: usize) -> Value {
+        unsafe {
+            match (*h).kind {
+                ObjectKind::Channel => *(&*(h as *const ChannelObject)).data.lock().unwrap().iter().nth(i).unwrap(),
+                _ => fields(h)[i],
+            }
+        }
+    }
+    pub fn children(h: *mut ObjectHeader) -> Vec<Value> {
+        let mut v = vec![];
+        let mut i = 0;
+        while i < nchildren(h) {
+            v.push(child(h, i));
+            i += 1;
+        }
+        v
+    }
     /// the pointer Value the VM itself would build for this object (real `From` impls)
     pub fn ptr_val(h: *mut ObjectHeader) -> Value {
         unsafe {
@@ -52,6 +81,7 @@ pub(crate) mod u6 {
                 | (ValueTag::Array, ObjectKind::Array)
                 | (ValueTag::Variant, ObjectKind::Enum)
                 | (ValueTag::String, ObjectKind::String)
+                | (ValueTag::Channel, ObjectKind::Channel)
         )
     }
     /// position of `p` in heap_list, or heap_list.len() if absent (pointer comparison only)
@@ -130,7 +160,7 @@ pub(crate) mod u6 {
     ///
     /// state_ok:  I7 gc_visited is the constant `true` the constructors hard-code;
     ///            Sweeping{index} has index <= len; grey objects exist only while Marking;
-    ///            I0 heap_list has no duplicates, holds no no_gc object (and no channel: excluded);
+    ///            I0 heap_list has no duplicates and holds no no_gc object;
     ///            I2 gray_stack ⊆ marked ⊆ heap_list (static strings tolerated, see below);
     ///            Idle: the whole heap is white;  I5b Sweeping: positions < index are white again.
     pub fn state_ok(t: &VmGreenThread) -> bool {
@@ -178,11 +208,8 @@ pub(crate) mod u6 {
         let mut p = 0;
         while p < n {
             let h = t.heap_list[p];
-            let (no_gc, kind) = unsafe { ((*h).no_gc, (*h).kind) };
+            let no_gc = unsafe { (*h).no_gc };
             if no_gc {
-                return false;
-            }
-            if matches!(kind, ObjectKind::Channel) {
                 return false;
             }
             let m = marked(t, h);
@@ -196,7 +223,8 @@ pub(crate) mod u6 {
         }
         true
     }
-    /// obj_ok(p): I1+I3+I4/I5a for the object at position p: if it is SAFE, each of its fields is
+    /// obj_ok(p): I1+I3+I4/I5a for the object at position p: if it is SAFE, each of its children
+    /// (fields / elements / payload / queued channel values) is
     /// a scalar, a static string, or a well-typed pointer to a live SAFE object -- a MARKED one
     /// if p is black (Marking, marked, not on gray_stack).  Objects sweep is about to free are
     /// unconstrained (they may point to already freed garbage; nobody reads them).
@@ -204,10 +232,11 @@ pub(crate) mod u6 {
         let h = t.heap_list[p];
         if safe_at(t, p) {
             let black = t.gc_state == GcState::Marking && marked(t, h) && !on_gray(t, h);
-            let fs = fields(h);
+            let k = nchildren(h);
             let mut f = 0;
-            while f < fs.len() {
-                if !val_ok(t, &fs[f], black) {
+            while f < k {
+                let c = child(h, f);
+                if !val_ok(t, &c, black) {
                     return false;
                 }
                 f += 1;
@@ -316,9 +345,68 @@ pub(crate) mod u6 {
         (still, payload)
     }
 
+    /// Channel scenario (one thread): a live enum value sits in a grey, not yet scanned array;
+    /// the channel has already been scanned (black); the program pops the value off the array
+    /// and writes it into the channel, whose queue now holds the ONLY reference.  The write
+    /// barrier of the ChannelWrite arm must shade it; the final root re-scan cannot help because
+    /// the queue is not a root.  Returns (queued object still in heap_list, payload read back
+    /// through ChannelRead if it is).
+    pub fn scenario_channel_write_during_mark(t: &mut VmGreenThread) -> (bool, Option<AbraInt>) {
+        t.pc = ProgramCounter(5);
+        // let arr = [Some(41)]
+        t.push(41 as AbraInt);
+        t.construct_variant(1);
+        t.construct_array(1);
+        // let c = channel()        -- stack: [arr, c, c]
+        t.arm_ConstructChannel();
+        t.arm_Duplicate();
+        let chan_v = t.top();
+        // a cycle starts; grey stack = [arr, c] so the first increment pops the channel
+        t.start_mark_phase();
+        let mut b = 1; // budget 1: exactly one object (the channel) is scanned
+        t.process_gray(&mut b);
+        let chan_black = marked(t, chan_v.0 as *mut ObjectHeader) && !on_gray(t, chan_v.0 as *mut ObjectHeader);
+        // let e = arr.pop()        -- stack: [arr, c, c, e]
+        t.arm_ArrayPop(0x8000, 0);
+        let e_v = t.top();
+        let e_ptr = e_v.0 as *mut ObjectHeader;
+        // c.write(e)               -- stack: [arr, c]; the queue holds the only reference to e
+        t.arm_ChannelWrite();
+        // the collector finishes the cycle
+        let mut k = 0;
+        while k < 3 {
+            if t.gc_state == GcState::Marking {
+                b = usize::MAX;
+                t.process_gray(&mut b);
+            }
+            k += 1;
+        }
+        t.sweep(usize::MAX);
+        t.sweep(usize::MAX);
+        let still = chan_black && pos(t, e_ptr) < t.heap_list.len();
+        let payload = if still {
+            // c.read(): deep-copies the queued value
+            t.arm_ChannelRead();
+            Some(t.top().get_variant(t).val.get_int(t))
+        } else {
+            None
+        };
+        (still, payload)
+    }
+
     #[cfg(test)]
     mod native {
         use super::*;
+        /// native replay of C06.gc.ChannelWrite.preserves_inv / scenario.channel_write_during_mark
+        #[test]
+        fn chan_write_during_mark_native() {
+            let mut t = mk_thread(vec![]);
+            let (still, payload) = scenario_channel_write_during_mark(&mut t);
+            println!("U6-NATIVE-CHAN still_in_heap_list={} payload={:?} stack_len={} heap_len={} state={:?}",
+                     still, payload, t.value_stack.len(), t.heap_list.len(), t.gc_state);
+            std::mem::forget(t);
+            assert!(still, "object referenced only from a channel queue was deallocated by sweep");
+        }
         /// native replay of C06.gc.scenario.pop_during_mark on the real collector
         #[test]
         fn pop_during_mark_native() {
@@ -488,6 +576,18 @@ pub(crate) mod u6 {
         kani::cover!(true, "reachable");
         assert!(still, "U6: object referenced from value_stack must not be deallocated by sweep");
         assert!(payload == Some(41), "U6: popped element keeps its payload");
+        std::mem::forget(t);
+    }
+
+    #[cfg(kani)]
+    #[kani::proof]
+    #[kani::unwind(5)]
+    fn scenario_channel_write_during_mark_h() {
+        let mut t = mk_thread(vec![]);
+        let (still, payload) = scenario_channel_write_during_mark(&mut t);
+        kani::cover!(true, "reachable");
+        assert!(still, "U6: object referenced only from a channel queue must not be deallocated by sweep");
+        assert!(payload == Some(41), "U6: value read back from the channel keeps its payload");
         std::mem::forget(t);
     }
 
